@@ -14,6 +14,7 @@ RULE = ("the real pamiq_core/torch/model.py over a stand-in torch package; one i
         "threads at 0-4 chosen points (quick: seeded random points; thorough: every single point and random pairs / triples). The observed event sequence must be accepted by the model, satisfy the monitor "
         "(no training write to the module a locked section reads; one module per section), and after a final sync both sides hold equal values, training mode restored, different objects. "
         "A third of the runs drive the training side through a real TorchTrainer (run() = setup with fresh optimizers, train with grads / optimizer step / zero_grad, sync, teardown; with or without a second, train-only model) and let the inference thread back-propagate through the module it holds. "
+        "Around every completed synchronisation the training model's gradients are read silently: they must be the same before and after (clause of prop_ok). "
         "Non-trivial = at least one switch falls between an unwrap()/infer() call and its lock release while a sync is in flight; distinct = canonical JSON.")
 TRUSTED = [
     "Coq 8.16.1 kernel incl. vm_compute",
@@ -119,7 +120,9 @@ def coq_case(case, obs):
         cn(f["train_ref"]), cn(f["inf_ref"]), cl(cz(x) for x in f["train_params"]), cl(cz(x) for x in f["inf_params"]),
         cl(copt(None if g is None else cz(g)) for g in f["train_grads"]), cb(f["train_mode"]), cb(f["inf_mode"]))
     synced = bool(case["train"]) and case["train"][-1][0] in ("sync", "run")
-    return "{| c_in := %s; c_tr := %s; c_fin := %s; c_synced := %s |}" % (coq_input(case), coq_trace(obs), fin, cb(synced))
+    og = lambda l: cl(copt(None if g is None else cz(g)) for g in l)
+    syncs = cl(f"({og(b)}, {og(a)})" for b, a in obs.get("sync_grads") or [])
+    return "{| c_in := %s; c_tr := %s; c_fin := %s; c_synced := %s; c_syncs := %s |}" % (coq_input(case), coq_trace(obs), fin, cb(synced), syncs)
 
 
 def coq_expected(case, obs):
@@ -172,6 +175,8 @@ def signature(case, obs):
             if mod == e[2]:
                 return f"section-{kind}-reads-a-module-being-written"
             ws.add(e[2])
+    if any(b != a for b, a in obs.get("sync_grads") or []):
+        return "sync-changes-the-training-model's-gradients"
     return "sync-effect-or-trace"
 
 
